@@ -8,6 +8,8 @@ import corerun
 ID = 'C01'
 THEOREMS = [
     'Sourcer.C01_codegen_refines_peg',
+    'Sourcer.C01_meaning_independent_of_fuel',
+    'Sourcer.C01_codegen_refines_peg_from_there_on',
     'Sourcer.C01_choice_commits_first',
     'Sourcer.C01_failed_alternative_leaves_no_trace',
     'Sourcer.C01_failed_option_leaves_no_trace',
